@@ -22,4 +22,72 @@ CHECKS = {
         technique="runtime monitoring: self-consistency oracle over recorded seal/open event logs of the real sender and receiver",
         text="Exploration: seeded workloads over all 144 suite/mode cells with boundary-length inputs, lagging receivers and all API pairings; the oracle checks each in-order delivery against the plaintext that was sealed and the length relations. Sampling is the right level: the space is unbounded and the failure modes (one cell, one length class) are reached by structured coverage.",
         design_ref="DESIGN.md 6/C01", note=TRUST),
+    "C02": dict(
+        technique="runtime monitoring: differential oracle - every recorded result of the real code compared byte-for-byte with an independent executable RFC 9180 (both directions)",
+        text="Exploration with an independent reference: all 48 suites x 4 modes, impl-as-sender under scripted RNG bytes and reference-as-sender transcripts; any symmetric change to labels, ids, orders, mode bytes or nonce layout shows up as a byte difference. The reference is anchored on published vectors at the start of each run.",
+        design_ref="DESIGN.md 3, 6/C02", note=TRUST),
+    "C03": dict(
+        technique="runtime monitoring: differential oracle for the KEM layer (DeriveKeyPair/GenerateKeyPair/Encap/Decap/Auth variants) against the reference, with directed rare-event inputs",
+        text="Exploration: 4 KEMs, ikm lengths 0..65536, degenerate ikm, plain and authenticated encap/decap, decap of reference encapsulations; three precomputed ikm values drive the P-256 rejection-sampling retry path, which random inputs hit with probability 2^-32.",
+        design_ref="DESIGN.md 6/C03", note=TRUST + " The P-384/P-521 retry path is unreachable (p < 2^-190)."),
+    "C04": dict(
+        technique="runtime monitoring: abstract state machine (counter + latch) stepped in lock-step with the real sender context; every ciphertext recomputed with OpenSSL under the model's nonce; sort-based nonce-reuse detector over bursts",
+        text="Exploration of the 2^64 counter space by structure: a full prefix (2^20 quick / 2^24 thorough seals per AEAD) for uniqueness, every byte-carry boundary, the last values before and after exhaustion, seeded random positions, arbitrary call histories on dead contexts. Contexts are built from raw key material through a cfg(hpke_verif) hook so the monitor does not depend on the key schedule.",
+        design_ref="DESIGN.md 6/C04", note=TRUST + " Positions beyond the burst prefix are reached with the set_seq hook."),
+    "C05": dict(
+        technique="runtime monitoring: offline checker of recorded delivery histories against an abstract receiver model (position + latch); acceptance decided from recorded bytes only",
+        text="Exploration of adversarial histories (next/replay/future/bit-flips/truncation/extension/garbage/mixed tag, both APIs, positions 0, random, byte carries, 2^64-3.. across exhaustion). Found F1 (open() on an exhausted context answered short inputs with OpenError), fixed in /repo 7e92e6f.",
+        design_ref="DESIGN.md 6/C05, 7", note=TRUST),
+    "C06": dict(
+        technique="runtime monitoring: tamper oracle over recorded opens - any delivered (ct, tag, aad) that differs from what the sender produced must yield OpenError on all four opening interfaces",
+        text="Exploration with exhaustive single-bit flips for small messages (every bit of ct, tag and aad), every truncation length, extensions, cross-message substitutions; streaming and single-shot, allocating and in-place; a control open per message keeps the receiver positioned.",
+        design_ref="DESIGN.md 6/C06", note=TRUST),
+    "C07": dict(
+        technique="runtime monitoring: differential perturbation oracle - one setup component changed on the receiver, then open and 32/64-byte exports compared with the sender's own",
+        text="Exploration: every suite, every single-bit flip of info/psk/psk_id (<= 40 bytes), prefix/suffix edits, boundary shifts between fields, mode swaps with identical PSK data, other KDF/AEAD (same key bytes presented to a receiver of another suite), other recipient key, other/bit-flipped/non-canonical encapsulated keys; baseline must work or the session is inconclusive.",
+        design_ref="DESIGN.md 6/C07", note=TRUST),
+    "C08": dict(
+        technique="runtime monitoring: impostor oracle - ciphertexts and exports of senders lacking the identity key or PSK presented to a receiver expecting the honest sender, with a positive control",
+        text="Exploration: 4 KEMs x {Auth, AuthPsk, Psk}; other key pair, right public key with foreign private key, unauthenticated mode, every single-bit PSK flip (PSK <= 64 bytes), other psk_id, no PSK.",
+        design_ref="DESIGN.md 6/C08", note=TRUST),
+    "C09": dict(
+        technique="runtime monitoring: verdict oracle - from_bytes results compared with an explicit SEC1/range decision procedure on Python integers over constructed hostile encodings",
+        text="Exploration by construction: invalid-curve and twist points, non-canonical coordinates (x+p, y+p), identity encodings, all 255 foreign tag bytes, compressed forms, every length, scalars 0/n-1/n/n+1/2^k-1 and P-521 high bits, for 3 curves x {public, encapsulated, private}.",
+        design_ref="DESIGN.md 6/C09", note=TRUST),
+    "C10": dict(
+        technique="runtime monitoring: exhaustive enumeration of the 14 small-order X25519 encodings in every role/mode/entry point, judged by a reference RFC 7748 ladder; sampled negatives",
+        text="The positive part (14 encodings x {pkR, enc, pkS} x 4 modes x setup/encap/decap/single-shot) is enumerated completely (evidence exhaustive: true for that part); negatives (neighbours, random strings) are sampled.",
+        design_ref="DESIGN.md 6/C10", note=TRUST),
+    "C11": dict(
+        technique="runtime monitoring: export oracle - LabeledExpand recomputed in Python from the exporter secret the live context reports through a hook; purity/symmetry checks across recorded histories; panic observation for export-only suites",
+        text="Exploration: 192 suite/mode cells, both roles, exporter contexts up to 64 KiB, lengths around every bound (every L within 40 of 255*Nh; thorough: every L in 0..16400), exports interleaved with seals, opens and failed opens.",
+        design_ref="DESIGN.md 6/C11", note=TRUST),
+    "C12": dict(
+        technique="runtime monitoring: serialization oracle - sizes vs the RFC table, round trips, re-serialization, exact error payloads and write_exact panic behaviour for every length 0..2*size+2",
+        text="Exploration with exhaustive length sweeps for 4 KEMs x {public, private, encapsulated} and 4 tag types; values from the library, from the reference and arbitrary accepted strings.",
+        design_ref="DESIGN.md 6/C12", note=TRUST),
+    "C13": dict(
+        technique="sanitizers + panic/abort monitor: one hostile workload replayed under overflow-checked, release and AddressSanitizer builds (thorough: valgrind memcheck, Miri, coverage census); every call under catch_unwind with call-before-invoke logging",
+        text="Exploration of every byte-consuming entry point over all 144 cells with malformed, boundary-length and 64 KiB (thorough 1 MiB) inputs; a panic, an abort, an overflow trap, a sanitizer report or a wrong setup error class is a violation.",
+        design_ref="DESIGN.md 5, 6/C13", note=TRUST + " Sanitizers see only code the workload reaches."),
+    "C14": dict(
+        technique="runtime monitoring: differential oracle inside one session - single-shot vs composed calls under identical scripted RNG bytes, allocating vs in-place forms on twin contexts",
+        text="Exploration: 144 cells, success paths with boundary lengths and every failure path (small-order/invalid enc or pkR, wrong key, wrong info/aad, flipped and short tags, short ciphertexts).",
+        design_ref="DESIGN.md 6/C14", note=TRUST),
+    "C15": dict(
+        technique="runtime monitoring: validation oracle for PskBundle::new plus reference comparison with hypothesis-based attribution (swapped / dropped psk or psk_id, mode byte) before a mismatch is reported",
+        text="Exploration: all emptiness combinations at 8 lengths (incl. all-zero non-empty strings); routing for all 48 suites x 4 modes. A mismatch is only a C15 violation when a PSK-routing hypothesis reproduces the real output or it is confined to one mode family.",
+        design_ref="DESIGN.md 6/C15", note=TRUST),
+    "C16": dict(
+        technique="runtime monitoring: memory-observing monitor (object moved into a slot, bytes photographed around drop_in_place) plus a drop ledger hook at the end of the four wiping Drop impls; optimized builds, memcheck in thorough",
+        text="Exploration over suites/modes/roles: shared secret, base nonce and exporter secret must be sighted in the object's own storage before the drop and wiped after; every setup must drop the temporary AEAD key and the shared secret with no nonzero residue.",
+        design_ref="DESIGN.md 6/C16", note=TRUST + " Only the object's own storage is inspected; stale copies in dead bytes carried by moves are counted, not judged."),
+    "C17": dict(
+        technique="runtime monitoring over configurations: crate tests, corpus replay of the driver vs the all-features build, API presence probes, examples and bench, guard on/off comparison, per feature subset",
+        text="Enumeration of feature subsets (quick: 11 pair-covering subsets; thorough: all 64, exhaustive: true). Build outcomes are observed by running the compiler and labelled as such; the deciding observations are test runs and output comparisons.",
+        design_ref="DESIGN.md 6/C17", note=TRUST, category="exploration"),
+    "C18": dict(
+        technique="runtime monitoring + race detection: per-session transcripts under permuted, interleaved, threaded, migrating and shared-reference placements compared with the sequential run; ThreadSanitizer (thorough: Miri) on the same executions; compile-time Send+Sync probe",
+        text="Exploration of placements with schedule evidence (threads used, session switches, distinct global orders observed); a run whose parallel placements never overlapped is inconclusive.",
+        design_ref="DESIGN.md 6/C18", note=TRUST),
 }
